@@ -51,12 +51,17 @@ def sqlite_orders(prog, rep, sites, mname):
     rep.floor("order-by", "<MdkSqliteStorage as GroupStorage>::%s" % mname, len(fs), 1)
     if not fs:
         return out
-    ext = prog.extent(fs[0])
+    fam = set(g.path for g in prog.family(fs[0]))
     for s in sites:
-        if s.fn.root != fs[0].path and s.fn.path != fs[0].path:
+        if s.fn.path not in fam and s.fn.root != fs[0].path:
             continue
         if s.stmt.kind == "SELECT" and s.stmt.table == "messages" and s.stmt.order_by:
             v = arm_variant(prog, s.fn, s.bb, "MessageSortOrder")
+            if v is None:
+                # the statement is assembled from a constant chosen per sort order (`format!(".. ORDER BY {} ..", order_by(sort_order))`):
+                # the arm is the one that picks the constant
+                for b in getattr(s, "val_bbs", []) or []:
+                    v = v or arm_variant(prog, s.fn, b, "MessageSortOrder")
             out.setdefault(v, []).append(s)
     return out
 
